@@ -2079,7 +2079,8 @@ fn run_dist(ctx: &mut Ctx, d: D) {
     let quick = ctx.quick();
     for (name, f, pts, nq, nt) in clauses(d) {
         let sub = format!("{}/{}", d.name(), name);
-        let n = if quick { nq } else { nt };
+        let _ = quick;
+        let n = ctx.scale(nq, nt);
         ctx.run_prop(&sub, n, ustrat(d, pts), f);
     }
     // the DESIGN grid, every clause on every grid point (after the random part so that a defect is
